@@ -46,16 +46,16 @@ type c13PluginConfig struct {
 func init() { RegisterPluginConfig(c13PluginNS, c13PluginConfig{}) }
 
 type c13Env struct {
-	mu        sync.Mutex
-	trace     []string
-	applyN    int // Apply calls seen in the current commit
-	applyFail int // fail the k-th Apply (0 = never)
-	rbN       int // Rollback calls seen in the current commit
-	rbFail    int // the k-th Rollback call returns an error (0 = never)
+	mu         sync.Mutex
+	trace      []string
+	applyN     int // Apply calls seen in the current commit
+	applyFail  int // fail the k-th Apply (0 = never)
+	rbN        int // Rollback calls seen in the current commit
+	rbFail     int // the k-th Rollback call returns an error (0 = never)
 	recordEmit bool
-	valFail   bool
-	frrLog    string
-	frrCtl    string
+	valFail    bool
+	frrLog     string
+	frrCtl     string
 }
 
 type c13Handler struct {
@@ -399,6 +399,10 @@ func c13Err(err error) string {
 		return "applyfail"
 	case strings.HasPrefix(m, "FRR config validation failed"):
 		return "frrtest"
+	case strings.HasPrefix(m, "FRR reload failed") && strings.Contains(m, "restoring the running configuration failed too"):
+		return "frrreloadU"
+	case strings.HasPrefix(m, "failed to save startup config") && strings.Contains(m, "restoring the running configuration failed too"):
+		return "startupsaveU"
 	case strings.HasPrefix(m, "FRR reload failed"):
 		return "frrreload"
 	case strings.HasPrefix(m, "failed to save startup config"):
@@ -490,11 +494,15 @@ func c13RunCase(line string, root string, idx int, templates string) (res string
 	// fail AFTER the daemon has taken the candidate (frr-reload.py applies its diff line by line).  A reload
 	// that takes effect copies the rendered candidate to frr.applied = the configuration the daemon runs.
 	applied := filepath.Join(dir, "frr.applied")
+	// every --reload call consumes the FIRST remaining "--reload*" line of the control file:
+	//   --reload-ok succeed, --reload fail without touching the daemon, --reload-partial take the candidate, then fail
 	body := "#!/bin/sh\nCTL=" + env.frrCtl + "\necho \"$1\" >> " + env.frrLog + "\n" +
-		"consume() { grep -v -x -- \"$1\" $CTL > $CTL.tmp; mv $CTL.tmp $CTL; }\n" +
-		"if [ \"$1\" = \"--reload\" ] && grep -q -x -- --reload-partial $CTL 2>/dev/null; then consume --reload-partial; cp \"$2\" " + applied + "; exit 1; fi\n" +
-		"if grep -q -x -- \"$1\" $CTL 2>/dev/null; then consume \"$1\"; exit 1; fi\n" +
-		"if [ \"$1\" = \"--reload\" ]; then cp \"$2\" " + applied + "; fi\nexit 0\n"
+		"first() { grep -m1 -- \"^$1\" $CTL 2>/dev/null; }\n" +
+		"consume() { awk -v m=\"$1\" 'BEGIN{d=0} { if(!d && $0==m){d=1;next} print }' $CTL > $CTL.tmp; mv $CTL.tmp $CTL; }\n" +
+		"if [ \"$1\" = \"--test\" ]; then if grep -q -x -- --test $CTL 2>/dev/null; then consume --test; exit 1; fi; exit 0; fi\n" +
+		"L=$(first --reload)\nif [ -n \"$L\" ]; then consume \"$L\"; fi\n" +
+		"case \"$L\" in\n  --reload) exit 1;;\n  --reload-partial) cp \"$2\" " + applied + "; exit 1;;\nesac\n" +
+		"cp \"$2\" " + applied + "\nexit 0\n"
 	if err := os.WriteFile(script, []byte(body), 0755); err != nil {
 		return "harness-error script"
 	}
@@ -670,6 +678,13 @@ func c13RunCase(line string, root string, idx int, templates string) (res string
 				cfg.SubscriberGroups = c13DeepConfig(true).SubscriberGroups
 			case "n":
 				cfg.SubscriberGroups = c13DeepConfig(false).SubscriberGroups
+			case "m": // both groups carry the same OUT-OF-RANGE S-VLAN: GetSVLANs fails, ValidateMatchIndex skips them
+				cfg.SubscriberGroups = c13DeepConfig(true).SubscriberGroups
+				for _, g := range cfg.SubscriberGroups.Groups {
+					for i := range g.VLANs {
+						g.VLANs[i].SVLAN = "5000"
+					}
+				}
 			}
 			env.recordEmit = true
 			r = c13Err(cd.LoadConfig(id, cfg))
@@ -695,11 +710,16 @@ func c13RunCase(line string, root string, idx int, templates string) (res string
 			if strings.Contains(flags, "t") {
 				ctl += "--test\n"
 			}
-			if strings.Contains(flags, "r") {
-				ctl += "--reload\n"
-			}
-			if strings.Contains(flags, "R") {
+			switch {
+			case strings.Contains(flags, "R"):
 				ctl += "--reload-partial\n"
+			case strings.Contains(flags, "r"):
+				ctl += "--reload\n"
+			default:
+				ctl += "--reload-ok\n"
+			}
+			if strings.Contains(flags, "u") { // the restoring reload fails too (the daemon is down)
+				ctl += "--reload\n"
 			}
 			os.WriteFile(env.frrCtl, []byte(ctl), 0644)
 			os.Remove(env.frrLog)
@@ -713,8 +733,13 @@ func c13RunCase(line string, root string, idx int, templates string) (res string
 			if op == "B" {
 				// the start-up path: LoadStartupConfig + ApplyLoadedConfig of a configuration with a CGNAT pool
 				boot := filepath.Join(dir, "boot-cgnat.yaml")
-				os.WriteFile(boot, []byte("interfaces:\n  eth1:\n    name: eth1\n    enabled: true\n    mtu: 1500\n    description: wan\n"+
-					"cgnat:\n  pools:\n    p1:\n      outside_interfaces: [eth1]\n      outside-addresses: [\"203.0.113.0/24\"]\n"), 0644)
+				y := "interfaces:\n  eth1:\n    name: eth1\n    enabled: true\n    mtu: 1500\n    description: wan\n" +
+					"cgnat:\n  pools:\n    p1:\n      outside_interfaces: [eth1]\n      outside-addresses: [\"203.0.113.0/24\"]\n"
+				if strings.Contains(flags, "G") { // a start-up file whose subscriber groups claim the same (S-VLAN, C-VLAN)
+					vr := "        - svlan: \"100\"\n          cvlan: any\n          access-types: [ipoe]\n          parent-interface: eth1\n"
+					y += "subscriber-groups:\n  groups:\n    a:\n      vlans:\n" + vr + "    b:\n      vlans:\n" + vr
+				}
+				os.WriteFile(boot, []byte(y), 0644)
 				if _, err = cd.LoadStartupConfig(boot); err == nil {
 					env.recordEmit = true
 					err = cd.ApplyLoadedConfig()
